@@ -270,7 +270,7 @@ class NucleationBarrierParameters:
             raise ValueError(f"Grain boundary energy (gbEnergy) is not set. NucleationBarrierParameters.gbEnergy = {self.gbEnergy}")
     
     def _validateGBk(self):
-        if self.GBk > self.description.maxRatio:
+        if self.GBk >= self.description.maxRatio:
             errorString = f'Warning: Grain boundary to interfacial energy ratio is too large for nucleation barrer on {self.description.name}. '
             errorString += f'For nucleation on {self.description.name}. y_gb / 2*y_int must be below {self.description.maxRatio:.3f}, but is {self.GBk:.3f}'
             raise ValueError(errorString)
